@@ -65,6 +65,17 @@ type scenario struct {
 	// way to the other runnable goroutines (hook under build tag verif). Events scheduled at the
 	// same virtual instant race for real; the yields make the less likely orders likely.
 	yields map[string]int
+	// transients: notifiees that sign up or sign off while the schedule runs (the two notifiees
+	// the exactly-once rules are stated for stay registered throughout)
+	transients []transientSpec
+}
+
+// transientSpec: pos is where the notifiee is registered relative to the two permanent ones
+// (0: before both, 1: between, 2: after both).
+type transientSpec struct {
+	kind string // "oneshot-connected" | "oneshot-disconnected": signs off from inside its first callback; "late": signs up at instant at; "stop-at": signs off at instant at
+	pos  int
+	at   int // ms
 }
 
 var yieldPoints = []string{"addConn:registered", "addConn:announced", "close:conns-closing", "doClose:removed"}
@@ -125,6 +136,21 @@ func drawScenario(rt *rapid.T) *scenario {
 	if rapid.IntRange(0, 2).Draw(rt, "swarmClose") == 0 {
 		sc.closeAt = rapid.SampledFrom([]int{0, 1, 2, 3, 5, 8, 12, 25}).Draw(rt, "closeAt")
 	}
+	for i, n := 0, rapid.SampledFrom([]int{0, 0, 0, 1, 2}).Draw(rt, "ntransients"); i < n; i++ {
+		sc.transients = append(sc.transients, transientSpec{
+			kind: rapid.SampledFrom([]string{"oneshot-connected", "oneshot-connected", "oneshot-disconnected", "late", "stop-at"}).Draw(rt, "transient"),
+			pos:  rapid.IntRange(0, 2).Draw(rt, "pos"),
+			at:   rapid.SampledFrom([]int{0, 1, 2, 5, 10, 20}).Draw(rt, "transientAt"),
+		})
+	}
+	if len(sc.transients) > 0 {
+		// The swarm dispatches under its registry lock and Notify / StopNotify wait for that lock,
+		// which is not a durable wait: a callback sleeping (virtual time) during such a wait would
+		// stall the bubble. Callbacks do not linger in these cases.
+		for i := range sc.conns {
+			sc.conns[i].block, sc.conns[i].dblock = [2]int{}, [2]int{}
+		}
+	}
 	if rapid.Bool().Draw(rt, "yields?") {
 		sc.yields = map[string]int{}
 		for _, p := range yieldPoints {
@@ -144,6 +170,9 @@ func (sc *scenario) String() string {
 			c.block, c.dblock, c.closeInConnected, c.closeInDisconnected, c.streams)
 	}
 	fmt.Fprintf(&b, "swarmClose=%d", sc.closeAt)
+	for _, tr := range sc.transients {
+		fmt.Fprintf(&b, " transient{%s pos=%d at=%d}", tr.kind, tr.pos, tr.at)
+	}
 	if sc.yields != nil {
 		fmt.Fprintf(&b, " yields=")
 		for _, p := range yieldPoints {
@@ -235,6 +264,45 @@ func (n *notifiee) Disconnected(_ network.Network, c network.Conn) {
 	}
 }
 
+// transient is a notifiee that signs off (or on) while events are being dispatched. Signing off
+// from inside a callback must go through another goroutine (the swarm holds its registry lock
+// while dispatching, so a synchronous call would deadlock); the callback then yields a few times
+// so that the sign-off gets its chance while the dispatch is still in progress. (It must not
+// sleep: the sign-off waits on that lock, which is not a durable wait, and virtual time
+// would stand still.)
+type transient struct {
+	idx  int
+	spec transientSpec
+	rec  *recorder
+	sw   *swarm.Swarm
+	once sync.Once
+}
+
+func (n *transient) Listen(network.Network, ma.Multiaddr)      {}
+func (n *transient) ListenClose(network.Network, ma.Multiaddr) {}
+func (n *transient) signOff() {
+	n.once.Do(func() {
+		go n.sw.StopNotify(n)
+		for i := 0; i < 30; i++ {
+			runtime.Gosched()
+		}
+	})
+}
+func (n *transient) Connected(_ network.Network, c network.Conn) {
+	r := n.rec.enter("connected", n.idx, c)
+	defer n.rec.leave(r)
+	if n.spec.kind == "oneshot-connected" {
+		n.signOff()
+	}
+}
+func (n *transient) Disconnected(_ network.Network, c network.Conn) {
+	r := n.rec.enter("disconnected", n.idx, c)
+	defer n.rec.leave(r)
+	if n.spec.kind == "oneshot-disconnected" {
+		n.signOff()
+	}
+}
+
 func peerID(i int) peer.ID { return keys.Ed(70 + i).ID }
 
 func connAddr(i int, sp *connSpec) ma.Multiaddr {
@@ -249,6 +317,9 @@ func runScenario(t *testing.T, rt *rapid.T, name string, sc *scenario) {
 		nontrivial bool
 		labels     = map[string]bool{}
 	)
+	for _, tr := range sc.transients {
+		labels["notifiee-registry-changes-during-dispatch:"+tr.kind] = true
+	}
 	if sc.yields != nil {
 		currentYields.Store(&sc.yields)
 		labels["schedule-points-yielding"] = true
@@ -305,8 +376,22 @@ func runScenario(t *testing.T, rt *rapid.T, name string, sc *scenario) {
 		}
 		n0 := &notifiee{idx: 0, rec: rec, specs: specs, conns: conns, byID: byID}
 		n1 := &notifiee{idx: 1, rec: rec, specs: specs, conns: conns, byID: byID}
+		var trs []*transient
+		for i, ts := range sc.transients {
+			trs = append(trs, &transient{idx: 10 + i, spec: ts, rec: rec, sw: sw})
+		}
+		signUp := func(pos int) {
+			for _, tr := range trs {
+				if tr.spec.pos == pos && tr.spec.kind != "late" {
+					sw.Notify(tr)
+				}
+			}
+		}
+		signUp(0)
 		sw.Notify(n0)
+		signUp(1)
 		sw.Notify(n1)
+		signUp(2)
 		sw.SetStreamHandler(func(s network.Stream) {
 			r := rec.enter("stream", -1, s.Conn())
 			rec.leave(r)
@@ -325,6 +410,14 @@ func runScenario(t *testing.T, rt *rapid.T, name string, sc *scenario) {
 				time.Sleep(time.Duration(ms) * time.Millisecond)
 				f()
 			}()
+		}
+		for _, tr := range trs {
+			switch tr.spec.kind {
+			case "late":
+				at(tr.spec.at, func() { sw.Notify(tr) })
+			case "stop-at":
+				at(tr.spec.at, func() { sw.StopNotify(tr) })
+			}
 		}
 		for i := range sc.conns {
 			sp := &sc.conns[i]
@@ -509,6 +602,12 @@ func runScenario(t *testing.T, rt *rapid.T, name string, sc *scenario) {
 							fail("callback %s(n%d, %s) was still running (until seq %d) after Swarm.Close had returned (seq %d)", r.kind, r.notifiee, id, r.exit, closeReturned.Load())
 						}
 					}
+				}
+			}
+			// notifiees that come and go: never more than once per connection and kind
+			for k, rs := range count {
+				if k.n >= 10 && len(rs) > 1 {
+					fail("transient notifiee %d (%+v) observed %s %d times for %s", k.n, sc.transients[k.n-10], k.kind, len(rs), k.conn)
 				}
 			}
 			// a stream delivered for a connection that never got Connected
